@@ -310,9 +310,11 @@ def part_c(rec, tier, seed, errors):
     seeds = 1 if tier == "quick" else 2
     grids = {
         "MovingWindow": lambda n: [{"b": b} for b in (1, 2, 3, 5) if n >= 2 * b],
-        "SeededBinarySegmentation": lambda n: [{"m": m, "M": M} for m in (1, 2, 3) for M in (2 * m, 4 * m, 50) if n >= 2 * m],
-        "CircularBinarySegmentation": lambda n: [{"m": m, "M": M} for m in (1, 2, 3) for M in (2 * m, 4 * m, 50)
-                                                 if n >= 2 * m and n <= (16 if tier == "quick" else 30)],
+        # the growth factor varies with (m, M) so that tuning and prediction must use the detector's own interval family
+        "SeededBinarySegmentation": lambda n: [{"m": m, "M": M, "g": (1.1, 1.5, 2.0)[(m + i) % 3]} for m in (1, 2, 3)
+                                               for i, M in enumerate((2 * m, 4 * m, 50)) if n >= 2 * m],
+        "CircularBinarySegmentation": lambda n: [{"m": m, "M": M, "g": (2.0, 1.1, 1.5)[(m + i) % 3]} for m in (1, 2, 3)
+                                                 for i, M in enumerate((2 * m, 4 * m, 50)) if n >= 2 * m and n <= (16 if tier == "quick" else 30)],
     }
     for name, grid in grids.items():
         for n in ns:
